@@ -3,7 +3,7 @@ from shell import replayers
 
 ID = "C08"
 LEVEL = "other"
-FUNCTIONS = ["PortfolioSpace.null_action", "PortfolioSpace.make_rebalancing_request", "TradingEnv.step"]
+FUNCTIONS = ["PortfolioSpace.null_action", "PortfolioSpace.make_rebalancing_request", "TradingEnv.step", "body:Transmitter._create_partitions#0"]
 from shell import c08
 SHELL = [c08.timing]
 REPLAYERS = [("PortfolioSpace.null_action::ensures::in_space", replayers.null_action_in_space)]
